@@ -45,6 +45,8 @@ def demo_cmd(src, wt):
         os.makedirs(os.path.dirname(dst), exist_ok=True)
         shutil.copy(dt, dst)
         tags = " -tags verif" if "go:build verif" in open(dt).read() else ""
+        if re.search(r"go test[^\n]*\s-race\b", head):
+            tags += " -race"
         return "go test -count=1%s ./%s/" % (tags, os.path.dirname(rel)), dst
     dm = os.path.join(src, "demo")
     if os.path.isdir(dm):
